@@ -75,6 +75,7 @@ def strat_case(draw, tier):
             "amp": draw(st.sampled_from([3.0, 8.0, 20.0])), "seed": draw(st.integers(0, 2**31 - 1)),
             "a": draw(st.sampled_from([1e-2, 0.5, 3.0, 100.0, 1.0, 7.25])), "b_sig": draw(st.floats(-100, 100, allow_nan=False)),
             "amp_exp": draw(st.sampled_from([0, -30, 30, -34])),
+            "baseline": draw(st.sampled_from([10.0, 10.0, 10.0, -3.0, 2.0e4, -6.0e3])),
             "loc": "norm" if both_norm else draw(st.sampled_from(["median", "median", "mean", "norm"])),
             "scale": "norm" if both_norm else draw(st.sampled_from(["iqr", "iqr", "mad", "std", "biweight", "gapper", "norm"]))}
 
@@ -82,7 +83,8 @@ def strat_case(draw, tier):
 def make_data(case):
     rng = np.random.default_rng(case["seed"])
     n = case["n"]
-    x = rng.normal(10.0, 2.0, n)
+    # the baseline may dwarf the noise (sums over many channels sit thousands of sigma above zero)
+    x = rng.normal(case.get("baseline", 10.0), 2.0, n)
     if case["pulse"] != "none":
         idx = (case["pos"] + np.arange(case["w"])) % n if case["pulse"] != "right_edge" else np.clip(case["pos"] + np.arange(case["w"]), 0, n - 1)
         x[idx] += case["amp"]
@@ -138,11 +140,19 @@ def check_responses(case, ctx):
     x64 = np.asarray(x, dtype=np.float32).astype(np.float64)
     loc_ref = 0.0 if loc_m == "norm" else float(np.asarray(_stats.estimate_loc(np.asarray(x, dtype=np.float32), loc_m)))
     sc_ref = 1.0 if scale_m == "norm" else float(np.asarray(_stats.estimate_scale(np.asarray(x, dtype=np.float32), scale_m)))
+    # the two estimators with a one-line definition are evaluated here in float64 instead of being taken on trust
+    if loc_m == "mean":
+        loc_ref = float(np.mean(x64))
+    elif loc_m == "median":
+        loc_ref = float(np.median(x64))
+    if scale_m == "std":
+        sc_ref = float(np.std(x64))
     if sc_ref == 0 or not np.isfinite(sc_ref):
         sc_ref = 1.0
     z_ref = (x64 - loc_ref) / sc_ref
     zerr = np.abs(z.astype(np.float64) - z_ref)
-    ztol = 1e-5 * (np.abs(z_ref) + (abs(loc_ref) + float(np.abs(x64).max())) / abs(sc_ref))
+    # float32 subtraction of two numbers of size |x|,|loc| costs a few eps32 of that size, expressed in units of the scale
+    ztol = 1e-5 * np.abs(z_ref) + 8 * float(np.finfo(np.float32).eps) * (abs(loc_ref) + float(np.abs(x64).max())) / abs(sc_ref) + 1e-6
     if z.shape != (n,) or np.any(zerr > ztol):
         t = int(np.argmax(zerr - ztol)) if z.shape == (n,) else -1
         raise Violation("mf:standardisation", f"{ctxt} loc={loc_m} scale={scale_m}: z[{t}]={z[t]!r} but (x-loc)/scale = {z_ref[t]!r} (loc {loc_ref!r}, scale {sc_ref!r})")
